@@ -24,7 +24,12 @@ structure RastObj where
   firstY : F32
   log : List (RasterOp F32 F64)
 
-def rastOps : raster_Rasterizer_ops RastObj where
+/-- `Draw` receives its source image as a handle (`Go.Ref`: the path of the Renderer field whose address was converted to an
+    `image.Image`); `pf` says which paint a handle stands for (see Paint.lean).  A source point other than the origin is
+    logged as something the model never emits. -/
+def rastOps (pf : Go.Ref → Paint F64) : raster_Rasterizer_ops RastObj where
+  Draw s r src sp :=
+    { s with log := s.log ++ [if sp = ⟨0, 0⟩ then .draw ⟨r.Min.X, r.Min.Y, r.Max.X, r.Max.Y⟩ (pf src) else .reset (-1) (-1)] }
   Bounds s := (default, s)
   Size s := (default, s)
   Pen s := ((s.penX, s.penY), s)
@@ -60,7 +65,7 @@ private theorem st_ne (z : Rn) (h : SmoothOK z) (k : Nat) (hk : k ≤ 2) :
   · intro e; rw [e]
 
 section
-variable (arc : ArcFn F32 F64) (pinf : F32) (z : Rn) (l : Log)
+variable (pf : Go.Ref → Paint F64) (arc : ArcFn F32 F64) (pinf : F32) (z : Rn) (l : Log)
 
 /-- what a 2-output drawing method returns, in terms of the model's step -/
 def out2 (c : Call F32) : RastObj × UInt8 :=
@@ -73,14 +78,14 @@ def out4 (c : Call F32) : RastObj × UInt8 × F32 × F32 :=
 tolerant
 /-- render.go relVec2 -/
 theorem relVec2_code_tie (x y : F32) :
-    render_Renderer_relVec2 rastOps (objOf z l) z.scaleX z.scaleY x y = (z.relVecX x, z.relVecY y, objOf z l) := by
+    render_Renderer_relVec2 (rastOps pf) (objOf z l) z.scaleX z.scaleY x y = (z.relVecX x, z.relVecY y, objOf z l) := by
   simp [render_Renderer_relVec2, rastOps, objOf, Renderer.relVecX, Renderer.relVecY, render_Renderer_relX,
     render_Renderer_relY, Renderer.relX, Renderer.relY]
 
 tolerant
 /-- render.go implicitSmoothPoint -/
 theorem implicitSmoothPoint_code_tie (h : SmoothOK z) (k : Nat) (hk : k ≤ 2) :
-    render_Renderer_implicitSmoothPoint rastOps (objOf z l) (stOf z) z.prevSmoothX z.prevSmoothY (UInt8.ofNat k)
+    render_Renderer_implicitSmoothPoint (rastOps pf) (objOf z l) (stOf z) z.prevSmoothX z.prevSmoothY (UInt8.ofNat k)
       = ((z.implicitSmoothPoint k).1, (z.implicitSmoothPoint k).2, objOf z l) := by
   have e := st_ne z h k hk
   unfold render_Renderer_implicitSmoothPoint Renderer.implicitSmoothPoint
@@ -93,7 +98,7 @@ theorem implicitSmoothPoint_code_tie (h : SmoothOK z) (k : Nat) (hk : k ≤ 2) :
 tolerant
 /-- render.go AbsLineTo -/
 theorem absLineTo_code_tie (x y : F32) :
-    render_Renderer_AbsLineTo rastOps (objOf z l) z.scaleX z.biasX z.scaleY z.biasY z.disabled (stOf z) x y
+    render_Renderer_AbsLineTo (rastOps pf) (objOf z l) z.scaleX z.biasX z.scaleY z.biasY z.disabled (stOf z) x y
       = out2 arc pinf z l (.d2 .L x y) := by
   unfold render_Renderer_AbsLineTo out2
   cases hd : z.disabled <;> simp only [hd, Bool.false_eq_true, ↓reduceIte] <;>
@@ -103,7 +108,7 @@ theorem absLineTo_code_tie (x y : F32) :
 tolerant
 /-- render.go RelLineTo -/
 theorem relLineTo_code_tie (x y : F32) :
-    render_Renderer_RelLineTo rastOps (objOf z l) z.scaleX z.scaleY z.disabled (stOf z) x y
+    render_Renderer_RelLineTo (rastOps pf) (objOf z l) z.scaleX z.scaleY z.disabled (stOf z) x y
       = out2 arc pinf z l (.d2 .l x y) := by
   unfold render_Renderer_RelLineTo out2
   cases hd : z.disabled <;> simp only [hd, Bool.false_eq_true, ↓reduceIte, relVec2_code_tie] <;>
@@ -112,7 +117,7 @@ theorem relLineTo_code_tie (x y : F32) :
 tolerant
 /-- render.go AbsHLineTo -/
 theorem absHLineTo_code_tie (x : F32) :
-    render_Renderer_AbsHLineTo rastOps (objOf z l) z.scaleX z.biasX z.disabled (stOf z) x
+    render_Renderer_AbsHLineTo (rastOps pf) (objOf z l) z.scaleX z.biasX z.disabled (stOf z) x
       = out2 arc pinf z l (.d1 .H x) := by
   unfold render_Renderer_AbsHLineTo out2
   cases hd : z.disabled <;> simp only [hd, Bool.false_eq_true, ↓reduceIte] <;>
@@ -121,7 +126,7 @@ theorem absHLineTo_code_tie (x : F32) :
 tolerant
 /-- render.go RelHLineTo -/
 theorem relHLineTo_code_tie (x : F32) :
-    render_Renderer_RelHLineTo rastOps (objOf z l) z.scaleX z.disabled (stOf z) x
+    render_Renderer_RelHLineTo (rastOps pf) (objOf z l) z.scaleX z.disabled (stOf z) x
       = out2 arc pinf z l (.d1 .h x) := by
   unfold render_Renderer_RelHLineTo out2
   cases hd : z.disabled <;> simp only [hd, Bool.false_eq_true, ↓reduceIte] <;>
@@ -130,7 +135,7 @@ theorem relHLineTo_code_tie (x : F32) :
 tolerant
 /-- render.go AbsVLineTo -/
 theorem absVLineTo_code_tie (y : F32) :
-    render_Renderer_AbsVLineTo rastOps (objOf z l) z.scaleY z.biasY z.disabled (stOf z) y
+    render_Renderer_AbsVLineTo (rastOps pf) (objOf z l) z.scaleY z.biasY z.disabled (stOf z) y
       = out2 arc pinf z l (.d1 .V y) := by
   unfold render_Renderer_AbsVLineTo out2
   cases hd : z.disabled <;> simp only [hd, Bool.false_eq_true, ↓reduceIte] <;>
@@ -139,7 +144,7 @@ theorem absVLineTo_code_tie (y : F32) :
 tolerant
 /-- render.go RelVLineTo -/
 theorem relVLineTo_code_tie (y : F32) :
-    render_Renderer_RelVLineTo rastOps (objOf z l) z.scaleY z.disabled (stOf z) y
+    render_Renderer_RelVLineTo (rastOps pf) (objOf z l) z.scaleY z.disabled (stOf z) y
       = out2 arc pinf z l (.d1 .v y) := by
   unfold render_Renderer_RelVLineTo out2
   cases hd : z.disabled <;> simp only [hd, Bool.false_eq_true, ↓reduceIte] <;>
@@ -148,7 +153,7 @@ theorem relVLineTo_code_tie (y : F32) :
 tolerant
 /-- render.go ClosePathAbsMoveTo -/
 theorem closePathAbsMoveTo_code_tie (x y : F32) :
-    render_Renderer_ClosePathAbsMoveTo rastOps (objOf z l) z.scaleX z.biasX z.scaleY z.biasY z.disabled (stOf z) x y
+    render_Renderer_ClosePathAbsMoveTo (rastOps pf) (objOf z l) z.scaleX z.biasX z.scaleY z.biasY z.disabled (stOf z) x y
       = out2 arc pinf z l (.d2 .Y x y) := by
   unfold render_Renderer_ClosePathAbsMoveTo out2
   cases hd : z.disabled <;> simp only [hd, Bool.false_eq_true, ↓reduceIte] <;>
@@ -158,7 +163,7 @@ theorem closePathAbsMoveTo_code_tie (x y : F32) :
 tolerant
 /-- render.go ClosePathRelMoveTo: the relative move is measured from the pen AFTER closing, i.e. the sub-path start -/
 theorem closePathRelMoveTo_code_tie (x y : F32) :
-    render_Renderer_ClosePathRelMoveTo rastOps (objOf z l) z.scaleX z.scaleY z.disabled (stOf z) x y
+    render_Renderer_ClosePathRelMoveTo (rastOps pf) (objOf z l) z.scaleX z.scaleY z.disabled (stOf z) x y
       = out2 arc pinf z l (.d2 .y x y) := by
   unfold render_Renderer_ClosePathRelMoveTo out2
   cases hd : z.disabled <;> simp only [hd, Bool.false_eq_true, ↓reduceIte] <;>
@@ -168,7 +173,7 @@ theorem closePathRelMoveTo_code_tie (x y : F32) :
 tolerant
 /-- render.go AbsQuadTo -/
 theorem absQuadTo_code_tie (x1 y1 x y : F32) :
-    render_Renderer_AbsQuadTo rastOps (objOf z l) z.scaleX z.biasX z.scaleY z.biasY z.disabled (stOf z)
+    render_Renderer_AbsQuadTo (rastOps pf) (objOf z l) z.scaleX z.biasX z.scaleY z.biasY z.disabled (stOf z)
         z.prevSmoothX z.prevSmoothY x1 y1 x y
       = out4 arc pinf z l (.d4 .Q x1 y1 x y) := by
   unfold render_Renderer_AbsQuadTo out4
@@ -179,7 +184,7 @@ theorem absQuadTo_code_tie (x1 y1 x y : F32) :
 tolerant
 /-- render.go RelQuadTo -/
 theorem relQuadTo_code_tie (x1 y1 x y : F32) :
-    render_Renderer_RelQuadTo rastOps (objOf z l) z.scaleX z.scaleY z.disabled (stOf z)
+    render_Renderer_RelQuadTo (rastOps pf) (objOf z l) z.scaleX z.scaleY z.disabled (stOf z)
         z.prevSmoothX z.prevSmoothY x1 y1 x y
       = out4 arc pinf z l (.d4 .q x1 y1 x y) := by
   unfold render_Renderer_RelQuadTo out4
@@ -190,7 +195,7 @@ theorem relQuadTo_code_tie (x1 y1 x y : F32) :
 tolerant
 /-- render.go AbsCubeTo -/
 theorem absCubeTo_code_tie (x1 y1 x2 y2 x y : F32) :
-    render_Renderer_AbsCubeTo rastOps (objOf z l) z.scaleX z.biasX z.scaleY z.biasY z.disabled (stOf z)
+    render_Renderer_AbsCubeTo (rastOps pf) (objOf z l) z.scaleX z.biasX z.scaleY z.biasY z.disabled (stOf z)
         z.prevSmoothX z.prevSmoothY x1 y1 x2 y2 x y
       = out4 arc pinf z l (.d6 .C x1 y1 x2 y2 x y) := by
   unfold render_Renderer_AbsCubeTo out4
@@ -201,7 +206,7 @@ theorem absCubeTo_code_tie (x1 y1 x2 y2 x y : F32) :
 tolerant
 /-- render.go RelCubeTo -/
 theorem relCubeTo_code_tie (x1 y1 x2 y2 x y : F32) :
-    render_Renderer_RelCubeTo rastOps (objOf z l) z.scaleX z.scaleY z.disabled (stOf z)
+    render_Renderer_RelCubeTo (rastOps pf) (objOf z l) z.scaleX z.scaleY z.disabled (stOf z)
         z.prevSmoothX z.prevSmoothY x1 y1 x2 y2 x y
       = out4 arc pinf z l (.d6 .c x1 y1 x2 y2 x y) := by
   unfold render_Renderer_RelCubeTo out4
@@ -212,12 +217,12 @@ theorem relCubeTo_code_tie (x1 y1 x2 y2 x y : F32) :
 tolerant
 /-- render.go AbsSmoothQuadTo -/
 theorem absSmoothQuadTo_code_tie (h : SmoothOK z) (x y : F32) :
-    render_Renderer_AbsSmoothQuadTo rastOps (objOf z l) z.scaleX z.biasX z.scaleY z.biasY z.disabled (stOf z)
+    render_Renderer_AbsSmoothQuadTo (rastOps pf) (objOf z l) z.scaleX z.biasX z.scaleY z.biasY z.disabled (stOf z)
         z.prevSmoothX z.prevSmoothY x y
       = out4 arc pinf z l (.d2 .T x y) := by
   unfold render_Renderer_AbsSmoothQuadTo out4
-  have e : render_Renderer_implicitSmoothPoint rastOps (objOf z l) (stOf z) z.prevSmoothX z.prevSmoothY (1 : UInt8)
-      = ((z.implicitSmoothPoint 1).1, (z.implicitSmoothPoint 1).2, objOf z l) := implicitSmoothPoint_code_tie z l h 1 (by omega)
+  have e : render_Renderer_implicitSmoothPoint (rastOps pf) (objOf z l) (stOf z) z.prevSmoothX z.prevSmoothY (1 : UInt8)
+      = ((z.implicitSmoothPoint 1).1, (z.implicitSmoothPoint 1).2, objOf z l) := implicitSmoothPoint_code_tie pf z l h 1 (by omega)
   cases hd : z.disabled <;> simp only [hd, Bool.false_eq_true, ↓reduceIte, e] <;>
     simp [Renderer.step, hd, objOf, stOf, rastOps, Renderer.quadTo, Renderer.setSmooth, render_Renderer_absVec2,
       render_Renderer_absX, render_Renderer_absY, Renderer.absX, Renderer.absY]
@@ -225,12 +230,12 @@ theorem absSmoothQuadTo_code_tie (h : SmoothOK z) (x y : F32) :
 tolerant
 /-- render.go RelSmoothQuadTo -/
 theorem relSmoothQuadTo_code_tie (h : SmoothOK z) (x y : F32) :
-    render_Renderer_RelSmoothQuadTo rastOps (objOf z l) z.scaleX z.scaleY z.disabled (stOf z)
+    render_Renderer_RelSmoothQuadTo (rastOps pf) (objOf z l) z.scaleX z.scaleY z.disabled (stOf z)
         z.prevSmoothX z.prevSmoothY x y
       = out4 arc pinf z l (.d2 .t x y) := by
   unfold render_Renderer_RelSmoothQuadTo out4
-  have e : render_Renderer_implicitSmoothPoint rastOps (objOf z l) (stOf z) z.prevSmoothX z.prevSmoothY (1 : UInt8)
-      = ((z.implicitSmoothPoint 1).1, (z.implicitSmoothPoint 1).2, objOf z l) := implicitSmoothPoint_code_tie z l h 1 (by omega)
+  have e : render_Renderer_implicitSmoothPoint (rastOps pf) (objOf z l) (stOf z) z.prevSmoothX z.prevSmoothY (1 : UInt8)
+      = ((z.implicitSmoothPoint 1).1, (z.implicitSmoothPoint 1).2, objOf z l) := implicitSmoothPoint_code_tie pf z l h 1 (by omega)
   cases hd : z.disabled <;> simp only [hd, Bool.false_eq_true, ↓reduceIte, e, relVec2_code_tie] <;>
     simp [Renderer.step, hd, objOf, stOf, rastOps, Renderer.quadTo, Renderer.setSmooth,
       Renderer.relVecX, Renderer.relVecY]
@@ -238,12 +243,12 @@ theorem relSmoothQuadTo_code_tie (h : SmoothOK z) (x y : F32) :
 tolerant
 /-- render.go AbsSmoothCubeTo -/
 theorem absSmoothCubeTo_code_tie (h : SmoothOK z) (x2 y2 x y : F32) :
-    render_Renderer_AbsSmoothCubeTo rastOps (objOf z l) z.scaleX z.biasX z.scaleY z.biasY z.disabled (stOf z)
+    render_Renderer_AbsSmoothCubeTo (rastOps pf) (objOf z l) z.scaleX z.biasX z.scaleY z.biasY z.disabled (stOf z)
         z.prevSmoothX z.prevSmoothY x2 y2 x y
       = out4 arc pinf z l (.d4 .S x2 y2 x y) := by
   unfold render_Renderer_AbsSmoothCubeTo out4
-  have e : render_Renderer_implicitSmoothPoint rastOps (objOf z l) (stOf z) z.prevSmoothX z.prevSmoothY (2 : UInt8)
-      = ((z.implicitSmoothPoint 2).1, (z.implicitSmoothPoint 2).2, objOf z l) := implicitSmoothPoint_code_tie z l h 2 (by omega)
+  have e : render_Renderer_implicitSmoothPoint (rastOps pf) (objOf z l) (stOf z) z.prevSmoothX z.prevSmoothY (2 : UInt8)
+      = ((z.implicitSmoothPoint 2).1, (z.implicitSmoothPoint 2).2, objOf z l) := implicitSmoothPoint_code_tie pf z l h 2 (by omega)
   cases hd : z.disabled <;> simp only [hd, Bool.false_eq_true, ↓reduceIte, e] <;>
     simp [Renderer.step, hd, objOf, stOf, rastOps, Renderer.cubeTo, Renderer.setSmooth, render_Renderer_absVec2,
       render_Renderer_absX, render_Renderer_absY, Renderer.absX, Renderer.absY]
@@ -251,12 +256,12 @@ theorem absSmoothCubeTo_code_tie (h : SmoothOK z) (x2 y2 x y : F32) :
 tolerant
 /-- render.go RelSmoothCubeTo -/
 theorem relSmoothCubeTo_code_tie (h : SmoothOK z) (x2 y2 x y : F32) :
-    render_Renderer_RelSmoothCubeTo rastOps (objOf z l) z.scaleX z.scaleY z.disabled (stOf z)
+    render_Renderer_RelSmoothCubeTo (rastOps pf) (objOf z l) z.scaleX z.scaleY z.disabled (stOf z)
         z.prevSmoothX z.prevSmoothY x2 y2 x y
       = out4 arc pinf z l (.d4 .s x2 y2 x y) := by
   unfold render_Renderer_RelSmoothCubeTo out4
-  have e : render_Renderer_implicitSmoothPoint rastOps (objOf z l) (stOf z) z.prevSmoothX z.prevSmoothY (2 : UInt8)
-      = ((z.implicitSmoothPoint 2).1, (z.implicitSmoothPoint 2).2, objOf z l) := implicitSmoothPoint_code_tie z l h 2 (by omega)
+  have e : render_Renderer_implicitSmoothPoint (rastOps pf) (objOf z l) (stOf z) z.prevSmoothX z.prevSmoothY (2 : UInt8)
+      = ((z.implicitSmoothPoint 2).1, (z.implicitSmoothPoint 2).2, objOf z l) := implicitSmoothPoint_code_tie pf z l h 2 (by omega)
   cases hd : z.disabled <;> simp only [hd, Bool.false_eq_true, ↓reduceIte, e, relVec2_code_tie] <;>
     simp [Renderer.step, hd, objOf, stOf, rastOps, Renderer.cubeTo, Renderer.setSmooth,
       Renderer.relVecX, Renderer.relVecY]
